@@ -248,7 +248,7 @@ def d5b(ctx, F):
             ctx.check(not bad and len(mk) == 1, "C04.D5.timeout-stored-as-given", "with_request_timeout:clamped", "with_request_timeout stores the duration it is given (no max()/clamp that could lengthen it: %s)" % (bad or "none"), b.span)
     rq = F.adt(RQ + "Requestor")
     fields = [x for x in rq["variants"][0]["fields"]]
-    shared = [i for i, f in enumerate(fields) if f["ty"].startswith("alloc::sync::Arc<selium_protocol::request_id::RequestId>") or ("HashMap<u32" in f["ty"] and "oneshot::Sender" in f["ty"])]
+    shared = [i for i, f in enumerate(fields) if f["ty"].startswith("alloc::sync::Arc<selium_protocol::request_id::RequestId>") or ("HashMap<" in f["ty"] and "oneshot::Sender" in f["ty"])]
     ctx.check(len(shared) == 2, "C04.D1.shared-parts-set-once", "requestor:shared-fields", "Requestor has its shared id source and pending table (%d found)" % len(shared))
     writes = []
     for p_, b in sorted(F.bodies.items()):
